@@ -361,6 +361,12 @@ def _models():
             return NotImplemented
         return h
 
+    def _to_vec(ex, st, fr, t, a):
+        d = ex.deref(a[0]) if len(a) == 1 else None
+        if isinstance(d, SX.Obj) and d.adt == "array":
+            return SX.Obj(adt="array", fields={i: copy.deepcopy(v) for i, v in sorted(d.fields.items())})
+        return NotImplemented
+
     def _vidx(v):
         if isinstance(v, SX.Obj) and v.vidx is not None and not v.fields:
             return v.vidx
@@ -403,6 +409,7 @@ def _models():
         md.on(SX.by(None, "wrapping_shr"), _int1(lambda x, k: x >> (k % 64)))
         md.on(SX.by(None, "min"), _int1(lambda x, y: min(x, y)))
         md.on(SX.by(None, "max"), _int1(lambda x, y: max(x, y)))
+        md.on(SX.by(None, ("to_vec", "to_owned")), _to_vec)
         md.on(SX.by(None, "shrink_to_fit"), _noop)
         md.on(SX.by("core::default::Default", "default"), lambda ex, st, fr, t, a: Q.const(0) if not a else NotImplemented)
         md.on(SX.by(None, ("chunks_exact_mut", "chunks_exact")), _chunks(True))
